@@ -35,10 +35,15 @@ package storage
 //@ -- ([from-cursor] nothing occupied between the cursor and the first element, [contiguous] nothing between two neighbours, [complete]
 //@ -- nothing after the last one unless the count limit was hit), every element is the decoding of what is stored at its position, carries
 //@ -- that position and the payload hash of itself. On an error return the elements read so far are returned and satisfy all of it except [complete].
+//@ -- BadAt(t, x): position x is occupied but does not lead to a decodable snapshot (dangling index entry or undecodable record): the only
+//@ -- reason, besides a failure of the store itself (badger.iofail), for the listing to return an error
+//@ spec BadAt(t badger.Txn, x mathint) bool = At(t, x) != 0 && (Stored(t, x) == 0 || !common.SnapValWf(Stored(t, x)))
+//@ spec DbBadAt(d badger.DB, x mathint) bool = badger.dbget(d, TP(x)) != 0 && (badger.dbget(d, badger.dbget(d, TP(x))) == 0 || !common.SnapValWf(badger.dbget(d, badger.dbget(d, TP(x)))))
 //@ func readSnapshotsSinceTopology
 //@   property C35
 //@   requires txn != nil && TopoOK(*txn)
 //@   modifies nothing
+//@   ensures [errors] err != nil ==> badger.iofail(err) || (exists x mathint :: {At(*txn, x)} U64(x) && topologyOffset <= x && BadAt(*txn, x))
 //@   ensures [limit] len(result0) <= count
 //@   ensures [own-position] forall j int :: {result0[j]} 0 <= j && j < len(result0) ==> result0[j] != nil && result0[j].Snapshot != nil && topologyOffset <= result0[j].TopologicalOrder && At(*txn, result0[j].TopologicalOrder) != 0
 //@   ensures [stored] forall j int :: {result0[j]} 0 <= j && j < len(result0) ==> common.SnapSrc(result0[j].Snapshot) == Stored(*txn, result0[j].TopologicalOrder)
@@ -123,6 +128,9 @@ package storage
 //@   requires s != nil && s.snapshotsDB != nil && DbTopoOK(*s.snapshotsDB)
 //@   modifies nothing
 //@   ensures [too-many] count > 500 ==> err != nil && len(result0) == 0
+//@   -- completeness ("listing queries with random offsets and counts up to the 500 limit"): EVERY count <= 500 is served -- the call fails only
+//@   -- when the store fails or an occupied position at/after the cursor does not lead to a decodable snapshot; in particular never with the limit error
+//@   ensures [accepts-up-to-limit] count <= 500 && err != nil ==> badger.iofail(err) || (exists x mathint :: {DbAt(*s.snapshotsDB, x)} U64(x) && topologyOffset <= x && DbBadAt(*s.snapshotsDB, x))
 //@   ensures [limit] len(result0) <= count
 //@   ensures [own-position] forall j int :: {result0[j]} 0 <= j && j < len(result0) ==> result0[j] != nil && result0[j].Snapshot != nil && topologyOffset <= result0[j].TopologicalOrder && DbAt(*s.snapshotsDB, result0[j].TopologicalOrder) != 0
 //@   ensures [stored] forall j int :: {result0[j]} 0 <= j && j < len(result0) ==> common.SnapSrc(result0[j].Snapshot) == DbStored(*s.snapshotsDB, result0[j].TopologicalOrder)
